@@ -7,6 +7,7 @@ import CookModel.Lemmas.ClosingStream
 import CookModel.Lemmas.CloseC03
 import CookModel.Lemmas.AstBuild
 import CookModel.Lemmas.ConsumersNoPanic
+import CookModel.Lemmas.InlineScan
 import CookModel.Props.C09
 import CookModel.Props.C04
 /-
@@ -722,5 +723,59 @@ theorem C03_consumers_hold : C03_consumers_statement := by
     another physical quantity makes `convert_f64`'s assertion fire in the model -/
 example : convertF64 (1 : Rat) ⟨0, [], [], [], 1, 0, .mass, none⟩ ⟨1, [], [], [], 1, 0, .volume, none⟩ = none := by
   decide
+
+
+/-! ### the inline-quantity scan of the analysis terminates (`find_inline_quantity`, INLINE_QUANTITIES)
+
+  The code guards its `while let` with `debug_assert!(prev < i)` ("to be sure no infinite loop").  The model runs
+  both loops (the scan for a candidate, and the loop that splits a step text at the quantities found) on fuel and
+  returns silently when the fuel is exhausted; the panic flag of `C03_statement` therefore does not see this site,
+  and these theorems are what excludes it.  Side condition on the character table: an ASCII digit is not white
+  space for `char::is_whitespace` (`DigitsNotWs`; true of Unicode, where White_Space contains no digit). -/
+
+/-- **C03, progress and termination of the inline-quantity scan.**  For every environment whose table does not
+    classify an ASCII digit as white space:
+    1. every iteration of `find_inline_quantity`'s loop hands on strictly less text than it was given, whether it
+       hits or the candidate fails (`number.parse()` fails or the unit is unknown) — the strict increase of `i`
+       that `debug_assert!(prev < i)` demands;
+    2. a hit leaves strictly less text (`after`) than was scanned, so the splitting loop makes progress;
+    3. neither loop ever stops because its fuel ran out: any fuel above the length of the text gives the result
+       of the fuel the model uses;
+    4. with that fuel both functions satisfy their fuel-free recursion equations. -/
+theorem C03_inline_scan_terminates {α : Type} [Arith α] (env : Env) (hd : DigitsNotWs env.cs) :
+    (∀ (pre rest a : Str), (inlineStep (α := α) env pre rest).after = some a → a.length < rest.length) ∧
+    (∀ (fuel : Nat) (pre rest : Str) (hit : InlineHit α),
+      findInlineQuantity env fuel pre rest = some hit → hit.after.length < rest.length) ∧
+    (∀ (f : Nat) (pre rest : Str), rest.length < f →
+      findInlineQuantity (α := α) env f pre rest = findInlineQuantity env (rest.length + 1) pre rest) ∧
+    (∀ (f : Nat) (hay : Str) (items : List Item) (iq : Array (Quantity (Value α))), hay.length < f →
+      inlineLoop env f hay items iq = inlineLoop env (hay.length + 1) hay items iq) ∧
+    (∀ (pre rest : Str), findInlineQuantity (α := α) env (rest.length + 1) pre rest =
+      match inlineStep (α := α) env pre rest with
+      | .stop => none
+      | .hit h => some h
+      | .retry pre' after => findInlineQuantity env (after.length + 1) pre' after) ∧
+    (∀ (hay : Str) (items : List Item) (iq : Array (Quantity (Value α))),
+      inlineLoop env (hay.length + 1) hay items iq =
+        match findInlineQuantity (α := α) env (hay.length + 1) [] hay with
+        | some hit =>
+          inlineLoop env (hit.after.length + 1) hit.after
+            ((if hit.before.isEmpty then items else items ++ [.text hit.before]) ++ [.inlineQuantity iq.size])
+            (iq.push hit.q)
+        | none => (if hay.isEmpty then items else items ++ [.text hay], iq)) :=
+  ⟨fun pre rest => inlineStep_progress env hd pre rest,
+   inlineScan_progress env hd,
+   fun f pre rest h => inlineScan_fuel env hd f _ pre rest h (Nat.lt_succ_self _),
+   fun f hay items iq h => inlineLoop_fuel env hd f _ hay items iq h (Nat.lt_succ_self _),
+   inlineScan_unfold env hd, inlineLoop_unfold env hd⟩
+
+/-! non-vacuity: the side condition holds of the example table, and the scan does hit -/
+example : DigitsNotWs toyCharSpec := by
+  intro c h
+  simp only [isAsciiDigitC, Bool.and_eq_true, decide_eq_true_eq] at h
+  have h1 : 48 ≤ c.val := h.1
+  have h2 : c.val ≤ 57 := h.2
+  simp only [toyCharSpec, Char.isWhitespace, Bool.or_eq_false_iff, decide_eq_false_iff_not]
+  refine ⟨⟨⟨?_, ?_⟩, ?_⟩, ?_⟩ <;> intro e <;> subst e <;> revert h1 h2 <;> decide
 
 end Cook
